@@ -357,7 +357,18 @@ class Behavior(_IModel, _IObserver):
         relaxes and moves time on — calling it to *read* a stress would step a
         rate-dependent material forward again.
         """
-        eps6_e_pg = self.Compute_strain_6d(eps_e_pg, z_e_pg, 0.0)
+        if self.dim == 2 and self.planeStress:
+            # at a frozen state the stress is affine in eps_zz, with slope C[zz, zz]: sig_zz = 0
+            # is one elastic step -- no integration, which would flow (and needs dt > 0 for a
+            # rate-dependent material)
+            eps_e_pg = FeArray.asfearray(eps_e_pg)
+            eps6_e_pg = FeArray.zeros(*eps_e_pg.shape[:2], 6, dtype=float)
+            eps6_e_pg[..., IDX_2D] = eps_e_pg
+            sig6_e_pg = self.Compute_sigma(eps6_e_pg, z_e_pg)
+            C_e_pg = self._C_e_pg(*eps_e_pg.shape[:2])
+            eps6_e_pg[..., ZZ] = -sig6_e_pg[..., ZZ] / C_e_pg[..., ZZ, ZZ]
+        else:
+            eps6_e_pg = self.Compute_strain_6d(eps_e_pg, z_e_pg, 0.0)
         sig6_e_pg = self.Compute_sigma(eps6_e_pg, z_e_pg)
         if self.dim == 3:
             return sig6_e_pg
